@@ -33,13 +33,17 @@ NameKind(nm) ==
     [] nm \in {"cobs/zpe+r", "COBS/ZPE+R"} -> KZpeR
     [] OTHER -> KRaw
 HasName(arg) == "name" \in DOMAIN arg /\ arg.name # "-"
+\* line separators of mptcore/convert/newline_string.c by type (Mac, Unix, network)
+HasNl(arg)  == "nl" \in DOMAIN arg /\ arg.nl > 0
+NlDelim(t)  == CASE t = 1 -> <<13>> [] t = 2 -> <<10>> [] OTHER -> <<13, 10>>
 KOf(arg) ==
   IF HasName(arg) THEN NameKind(arg.name)
-  ELSE IF arg.kind = "text" THEN TText(arg.dl, arg.how)
+  ELSE IF arg.kind = "text" THEN TText(IF HasNl(arg) THEN NlDelim(arg.nl) ELSE arg.dl, arg.how)
   ELSE IF arg.kind = "raw" THEN KRaw
   ELSE KindOf(arg.kind, arg.m, IF arg.m = 3 THEN 3 ELSE 4)
 \* the name the library gives back for the value stands for the same framing
-NameOK(ev) == HasName(ev.arg) => NameKind(ev.obs.tname) = NameKind(ev.arg.name)
+NameOK(ev) == /\ HasName(ev.arg) => NameKind(ev.obs.tname) = NameKind(ev.arg.name)
+              /\ HasNl(ev.arg) => ev.obs.dl = NlDelim(ev.arg.nl)       \* the separator the library names for the type
 
 HasLib(KK) == ~IsText(KK) /\ ~IsRaw(KK)
 LibMsgs(KK, ms) == [i \in 1..Len(ms) |-> IF KK.cmd THEN CmdHeader \o ms[i] ELSE ms[i]]
@@ -128,7 +132,7 @@ Tier2Idle == UNCHANGED <<out, run, code, cap, pre, marks, cons, left, reg, curr,
 EncIdle == UNCHANGED <<stream, fedn, fs, lost, last, pend>>
 DecIdle == UNCHANGED <<msg, acc, st, sess>>
 Update(ev) ==
-  /\ Tier2Idle
+  /\ Tier2Idle /\ UNCHANGED mode
   /\ CASE ev.a = "xinit" -> K' = KOf(ev.arg) /\ msg' = ev.arg.msg /\ acc' = 0 /\ st' = "run" /\ sess' = <<>> /\ EncIdle
        [] ev.a = "push"  -> /\ acc' = IF ev.obs.ret = "skip" THEN acc ELSE acc + ev.obs.n
                             /\ UNCHANGED <<K, msg, st, sess>> /\ EncIdle
@@ -161,7 +165,7 @@ Update(ev) ==
        [] OTHER -> UNCHANGED <<K, msg, acc, st, sess, stream, fedn, fs, lost, last, pend>>
 
 TraceInit ==
-  /\ l = 1 /\ bad = <<>> /\ skipb = -1 /\ pend = <<-1>>
+  /\ l = 1 /\ bad = <<>> /\ skipb = -1 /\ pend = <<-1>> /\ mode = "trace"
   /\ K = KCobs /\ msg = <<>> /\ acc = 0 /\ st = "idle" /\ sess = <<>>
   /\ out = <<>> /\ run = <<>> /\ code = 0 /\ cap = 0 /\ pre = 0 /\ marks = <<>> /\ cons = 0 /\ left = 0
   /\ stream = <<>> /\ fedn = 0 /\ fs = 0 /\ lost = FALSE /\ last = "none"
